@@ -2,6 +2,7 @@
 from .. import terms as T
 from ..terms import const, atom
 from .. import q
+from ..evalr import virtual as evalr_virtual
 from ..q import A, P, S, guards
 from ..evalr import Evaluator
 from . import c01
@@ -112,6 +113,15 @@ def oracle(ctx):
     ds0 = [e for e in tr.stores("_drift_state")]
     ctx.ob("FRM", G, "an accepted label first clears the warning", bool(ds0) and ds0[0].value == T.NONE and not [p for p in c01._site_pc_ev(tr, ds0[0]).pc if _is_count_guard(p.cond)], "")
     od = tr.stores("oracle_data")
+    # one store per case, or one store of a conditional value: split the latter into its cases
+    od2 = []
+    for e in od:
+        lv = list(q.ite_leaves(e.value))
+        if len(lv) > 1:
+            od2.extend(evalr_virtual(e, conds, value=l) for conds, l in lv)
+        else:
+            od2.append(e)
+    od = od2
     first = [e for e in od if e.value == P("labeled_sample")]
     more = [e for e in od if (e.value.single_atom() or ("", ""))[:2] == ("call", "pandas.concat")]
     ok = len(first) == 1 and q.has_guard(first[0], T.mk_cmp("==", A("oracle_data"), T.NONE)) and len(more) == 1 and \
@@ -176,10 +186,13 @@ def reference(ctx):
         lists = {}
         for key, fn in (("md", "numpy.mean"), ("md_std", "numpy.std"), ("acc", "numpy.mean"), ("acc_std", "numpy.std")):
             v = q.sub(rdv, const(key)).single_atom()
-            ok = v is not None and v[0] == "call" and v[1] == fn and (v[2][0].single_atom() or ("", "", ""))[0] == "loopvar"
+            isfn = v is not None and v[0] == "call" and v[1] == fn and len(v[2]) >= 1
+            ok = isfn and (v[2][0].single_atom() or ("", "", ""))[0] == "loopvar"
             if ok:
                 lists[key] = v[2][0].single_atom()[2]
-            ctx.ob("FRM", "MD3.calculate_distribution_statistics", "%s = %s over the folds" % (key, fn.split(".")[1]), ok, "")
+            # the statistic is taken over a list filled once per fold in the fold loop; other ways of collecting the folds are not followed
+            if ctx.anchor("MD3.calculate_distribution_statistics", "%s is computed from a list filled in the fold loop" % key, ok or not isfn, q.short(q.sub(rdv, const(key)), 100)):
+                ctx.ob("FRM", "MD3.calculate_distribution_statistics", "%s = %s over the folds" % (key, fn.split(".")[1]), ok, "")
         ok = len(lists) == 4 and lists["md"] == lists["md_std"] and lists["acc"] == lists["acc_std"] and lists["md"] != lists["acc"]
         ctx.ob("FRM", "MD3.calculate_distribution_statistics", "mean and deviation of the margin density come from one per-fold list, those of the accuracy from another", ok, str(lists))
     kf = [e for e in tr.calls() if e.callee == ("lib", "sklearn.model_selection.KFold")]
